@@ -1506,7 +1506,7 @@ class RDD:
             )
 
         codec_suffix = ''
-        if path.endswith(tuple('.' + ending
+        if path.endswith(tuple(ending
                                for endings, _ in fileio.codec.FILE_ENDINGS
                                for ending in endings)):
             codec_suffix = path[path.rfind('.'):]
@@ -1562,7 +1562,7 @@ class RDD:
             return self
 
         codec_suffix = ''
-        if path.endswith(tuple('.' + ending
+        if path.endswith(tuple(ending
                                for endings, _ in fileio.codec.FILE_ENDINGS
                                for ending in endings)):
             codec_suffix = path[path.rfind('.'):]
